@@ -21,6 +21,21 @@ structure Preserves (s s' : St) : Prop where
 def InnerOK (f : St → St × Outcome) : Prop :=
   ∀ s, 0 < s.counter → s.session.isSome = true → Preserves s (f s).1
 
+/-- what ANY code running inside an open session — including code that calls `commit()` / `rollback()` itself —
+    leaves untouched: the nesting counter and the outermost session -/
+structure Bal (s s' : St) : Prop where
+  counter : s'.counter = s.counter
+  session : s'.session = s.session
+
+def InnerBal (f : St → St × Outcome) : Prop :=
+  ∀ s, 0 < s.counter → s.session.isSome = true → Bal s (f s).1
+
+theorem Bal.refl (s : St) : Bal s s := ⟨rfl, rfl⟩
+theorem Bal.trans {a b c : St} (h1 : Bal a b) (h2 : Bal b c) : Bal a c :=
+  ⟨h2.counter.trans h1.counter, h2.session.trans h1.session⟩
+theorem Preserves.bal {s s' : St} (h : Preserves s s') : Bal s s' := ⟨h.counter, h.session⟩
+theorem InnerOK.bal {f : St → St × Outcome} (h : InnerOK f) : InnerBal f := fun s hc hs => (h s hc hs).bal
+
 theorem Preserves.refl (s : St) : Preserves s s := ⟨rfl, rfl, rfl, rfl, ⟨[], by simp⟩⟩
 
 theorem Preserves.trans {a b c : St} (h1 : Preserves a b) (h2 : Preserves b c) : Preserves a c := by
@@ -90,7 +105,7 @@ theorem attempt_eq (env : Env) (o : Opts) (run : Nat → St → St × Outcome) (
        let c : St × Option Exc := match b.2 with
          | .ret => commit env b.1
          | .raise e => (b.1, some e)
-       let a : Att := ⟨s1, b.1.pending, b.2, c.2⟩
+       let a : Att := ⟨s1, b.1, b.2, c.2⟩
        match c.2 with
        | none =>
          let x := exit env o none c.1
@@ -206,6 +221,9 @@ theorem entered_Entered (o : Opts) (s : St) : Entered o (entered o s) := ⟨rfl,
 theorem Preserves.entered {o : Opts} {s s' : St} (h : Entered o s) (hp : Preserves s s') : Entered o s' :=
   ⟨hp.counter.trans h.1, hp.session.trans h.2⟩
 
+theorem Bal.entered {o : Opts} {s s' : St} (h : Entered o s) (hp : Bal s s') : Entered o s' :=
+  ⟨hp.counter.trans h.1, hp.session.trans h.2⟩
+
 /-- the outermost `__exit__`: everything about the result -/
 theorem exit_top' (env : Env) (o : Opts) (exc : Option Exc) (b : St) (he : Entered o b) :
     Clean (exit env o exc b).1 ∧
@@ -229,31 +247,30 @@ theorem exit_top (env : Env) (o : Opts) (exc : Option Exc) (s1 b : St) (he : Ent
   rw [hp.committed, hp.ncommit] at h
   exact h
 
-theorem cm_top (env : Env) (o : Opts) (run : St → St × Outcome) (s : St) (hc : Clean s) (hr : InnerOK run)
+theorem cm_top (env : Env) (o : Opts) (run : St → St × Outcome) (s : St) (hc : Clean s) (hr : InnerBal run)
     (h0 : o.retry = 0) :
     let b := run (entered o s)
     Clean (cm env o run s).1 ∧
     (cm env o run s).1.committed =
-      s.committed ++ (if wantsCommit o b.2.exc? && commitOK env s.ncommit b.1.pending then b.1.pending else []) ∧
+      b.1.committed ++ (if wantsCommit o b.2.exc? && commitOK env b.1.ncommit b.1.pending then b.1.pending else []) ∧
     (cm env o run s).1.trace = b.1.trace ∧
-    (cm env o run s).2 = (match corErr env o b.2.exc? s.ncommit b.1.pending with
+    (cm env o run s).2 = (match corErr env o b.2.exc? b.1.ncommit b.1.pending with
                            | some e' => .raise e'
                            | none => b.2) := by
   intro b
-  have hp : Preserves (entered o s) b.1 := hr (entered o s) (by simp [entered]) (by simp [entered])
-  have hx := exit_top env o b.2.exc? (entered o s) b.1 (entered_Entered o s) hp
+  have hp : Bal (entered o s) b.1 := hr (entered o s) (by simp [entered]) (by simp [entered])
+  have hx := exit_top' env o b.2.exc? b.1 (hp.entered (entered_Entered o s))
   have hcm : cm env o run s = ((exit env o b.2.exc? b.1).1,
       match (exit env o b.2.exc? b.1).2 with | some e' => .raise e' | none => b.2) := by
     simp only [cm, h0, enter_clean o s hc]
     rfl
   rw [hcm]
-  refine ⟨hx.1, ?_, hx.2.2.1, ?_⟩
-  · simpa [entered] using hx.2.1
-  · simp only [hx.2.2.2]; rfl
+  refine ⟨hx.1, hx.2.1, hx.2.2.1, ?_⟩
+  simp only [hx.2.2.2]
 
 /-- does this execution of the decorated function's body end with its writes committed? -/
 def attCommits (env : Env) (o : Opts) (a : Att) : Bool :=
-  commitOK env a.start.ncommit a.writes &&
+  commitOK env a.after.ncommit a.writes &&
   match a.bodyOut with
   | .ret => true
   | .raise e => (doRetry env o e != .yes) && (o.allowed e == .yes)
@@ -265,45 +282,44 @@ def attOutSpec (env : Env) (o : Opts) (a : Att) : AttOut :=
   | some e =>
     match doRetry env o e with
     | .yes => (match o.allowed e with | .raises e' => .done (.raise e') | _ => .again e)
-    | .no => .done (.raise ((corErr env o (some e) a.start.ncommit (if a.bodyOut = .ret then [] else a.writes)).getD e))
-    | .raises e' => .done (.raise ((corErr env o (some e) a.start.ncommit (if a.bodyOut = .ret then [] else a.writes)).getD e'))
+    | .no => .done (.raise ((corErr env o (some e) a.after.ncommit (if a.bodyOut = .ret then [] else a.writes)).getD e))
+    | .raises e' => .done (.raise ((corErr env o (some e) a.after.ncommit (if a.bodyOut = .ret then [] else a.writes)).getD e'))
 
 theorem attempt_spec (env : Env) (o : Opts) (run : Nat → St → St × Outcome) (i : Nat) (s1 : St)
-    (he : Entered o s1) (hr : InnerOK (run i)) (bs : St) (bo : Outcome) (hb : run i s1 = (bs, bo)) :
-    (attempt env o run i s1).2.2 = ⟨s1, bs.pending, bo, match bo with
-                                    | .ret => commitErr env s1.ncommit bs.pending
+    (he : Entered o s1) (hr : InnerBal (run i)) (bs : St) (bo : Outcome) (hb : run i s1 = (bs, bo)) :
+    (attempt env o run i s1).2.2 = ⟨s1, bs, bo, match bo with
+                                    | .ret => commitErr env bs.ncommit bs.pending
                                     | .raise e => some e⟩ ∧
     Clean (attempt env o run i s1).1 ∧ (attempt env o run i s1).1.trace = bs.trace ∧
     (attempt env o run i s1).1.committed =
-      s1.committed ++ (if attCommits env o (attempt env o run i s1).2.2 then bs.pending else []) ∧
+      bs.committed ++ (if attCommits env o (attempt env o run i s1).2.2 then bs.pending else []) ∧
     (attempt env o run i s1).2.1 = attOutSpec env o (attempt env o run i s1).2.2 := by
-  have hp : Preserves s1 bs := by
+  have hp : Bal s1 bs := by
     have := hr s1 (by rw [he.1]; decide) (by rw [he.2]; rfl)
     rwa [hb] at this
   have heb : Entered o bs := hp.entered he
   have hc := commit_spec env bs
-  rw [hp.ncommit] at hc
   cases bo with
   | ret =>
-    cases hce : commitErr env s1.ncommit bs.pending with
+    cases hce : commitErr env bs.ncommit bs.pending with
     | none =>
-      have hok : commitOK env s1.ncommit bs.pending = true := (commitOK_iff _ _ _).2 hce
+      have hok : commitOK env bs.ncommit bs.pending = true := (commitOK_iff _ _ _).2 hce
       have hx := exit_top' env o none (commit env bs).1 (by rw [hc.1]; exact heb)
       simp only [attempt_eq, hb, hc.2, hce]
       refine ⟨trivial, hx.1, ?_, ?_, ?_⟩
       · rw [hx.2.2.1, hc.1]
       · rw [hx.2.1, hc.1]
-        simp [attCommits, hp.committed, commitOK]
+        simp [attCommits, Att.writes, commitOK]
       · rw [hx.2.2.2, hc.1]
         simp [attOutSpec, corErr, commitErr]
     | some e =>
-      have hnok : commitOK env s1.ncommit bs.pending = false := by
-        cases h : commitOK env s1.ncommit bs.pending with
+      have hnok : commitOK env bs.ncommit bs.pending = false := by
+        cases h : commitOK env bs.ncommit bs.pending with
         | false => rfl
         | true => rw [(commitOK_iff _ _ _).1 h] at hce; cases hce
       have hec : Entered o (commit env bs).1 := by rw [hc.1]; exact heb
       have hpc : (commit env bs).1.pending = [] := by rw [hc.1]
-      have hcc : (commit env bs).1.committed = s1.committed := by rw [hc.1]; simp [hnok, hp.committed]
+      have hcc : (commit env bs).1.committed = bs.committed := by rw [hc.1]; simp [hnok]
       have hct : (commit env bs).1.trace = bs.trace := by rw [hc.1]
       have hx := exit_top' env o (some e) (commit env bs).1 hec
       rw [hpc, hcc, hct] at hx
@@ -316,49 +332,49 @@ theorem attempt_spec (env : Env) (o : Opts) (run : Nat → St → St × Outcome)
         refine ⟨trivial, ?_, ?_, ?_, ?_⟩
         · exact hx.1
         · exact hx.2.2.1
-        · have : (exit env o (some e) (commit env bs).1).1.committed = s1.committed := by simpa using hx.2.1
-          simp [this, attCommits, hnok]
+        · have : (exit env o (some e) (commit env bs).1).1.committed = bs.committed := by simpa using hx.2.1
+          simp [this, attCommits, Att.writes, hnok]
         · rw [hx.2.2.2]
           simp only [attOutSpec, hd, corErr, commitErr]
           cases o.allowed e <;> simp
       | no =>
         dsimp only
         refine ⟨rfl, hx.1, hx.2.2.1, ?_, ?_⟩
-        · have : (exit env o (some e) (commit env bs).1).1.committed = s1.committed := by simpa using hx.2.1
-          simp [this, attCommits, hnok]
-        · rw [hx.2.2.2]; simp [attOutSpec, hd, corErr, commitErr]
+        · have : (exit env o (some e) (commit env bs).1).1.committed = bs.committed := by simpa using hx.2.1
+          simp [this, attCommits, Att.writes, hnok]
+        · rw [hx.2.2.2]; simp [attOutSpec, Att.writes, hd, corErr, commitErr]
       | raises e' =>
         dsimp only
         refine ⟨rfl, hx.1, hx.2.2.1, ?_, ?_⟩
-        · have : (exit env o (some e) (commit env bs).1).1.committed = s1.committed := by simpa using hx.2.1
-          simp [this, attCommits, hnok]
-        · rw [hx.2.2.2]; simp [attOutSpec, hd, corErr, commitErr]
+        · have : (exit env o (some e) (commit env bs).1).1.committed = bs.committed := by simpa using hx.2.1
+          simp [this, attCommits, Att.writes, hnok]
+        · rw [hx.2.2.2]; simp [attOutSpec, Att.writes, hd, corErr, commitErr]
   | raise e =>
     simp only [attempt_eq, hb]
     cases hd : doRetry env o e with
     | yes =>
       have her : Entered o (rollback bs) := heb
       have hx := exit_top' env o (some e) (rollback bs) her
-      have hx2 : (exit env o (some e) (rollback bs)).1.committed = s1.committed := by
-        rw [hx.2.1]; simp [rollback, hp.committed]
+      have hx2 : (exit env o (some e) (rollback bs)).1.committed = bs.committed := by
+        rw [hx.2.1]; simp [rollback]
       dsimp only
       refine ⟨rfl, hx.1, hx.2.2.1, ?_, ?_⟩
-      · simp [hx2, attCommits, hd]
+      · simp [hx2, attCommits, Att.writes, hd]
       · rw [hx.2.2.2]
         simp only [attOutSpec, hd, corErr, commitErr, rollback]
         cases o.allowed e <;> simp
     | no =>
-      have hx := exit_top env o (some e) s1 bs he hp
+      have hx := exit_top' env o (some e) bs heb
       dsimp only
       refine ⟨rfl, hx.1, hx.2.2.1, ?_, ?_⟩
-      · rw [hx.2.1]; simp [attCommits, hd, wantsCommit, Bool.and_comm]
-      · rw [hx.2.2.2]; simp [attOutSpec, hd]
+      · rw [hx.2.1]; simp [attCommits, Att.writes, hd, wantsCommit, Bool.and_comm]
+      · rw [hx.2.2.2]; simp [attOutSpec, Att.writes, hd]
     | raises e' =>
-      have hx := exit_top env o (some e) s1 bs he hp
+      have hx := exit_top' env o (some e) bs heb
       dsimp only
       refine ⟨rfl, hx.1, hx.2.2.1, ?_, ?_⟩
-      · rw [hx.2.1]; simp [attCommits, hd, wantsCommit, Bool.and_comm]
-      · rw [hx.2.2.2]; simp [attOutSpec, hd]
+      · rw [hx.2.1]; simp [attCommits, Att.writes, hd, wantsCommit, Bool.and_comm]
+      · rw [hx.2.2.2]; simp [attOutSpec, Att.writes, hd]
 
 /-- the record `a` is what execution number `i` of the body really did, started right after the outermost `_enter()`
     with nothing pending and the database equal to `c` -/
@@ -366,17 +382,19 @@ structure Faithful (env : Env) (o : Opts) (run : Nat → St → St × Outcome) (
   entered : Entered o a.start
   pending : a.start.pending = []
   committed : a.start.committed = c
-  writes : a.writes = (run i a.start).1.pending
+  after : a.after = (run i a.start).1
   bodyOut : a.bodyOut = (run i a.start).2
   exc : a.exc = match a.bodyOut with
-                | .ret => commitErr env a.start.ncommit a.writes
+                | .ret => commitErr env a.after.ncommit a.writes
                 | .raise e => some e
 
-/-- `log` records consecutive executions `i, i+1, …`; every one but the last ended in "go on with the next `i`" -/
-inductive Chain (env : Env) (o : Opts) (run : Nat → St → St × Outcome) (c : List Write) : Nat → List Att → Prop where
-  | last (i : Nat) (a : Att) : Faithful env o run c i a → Chain env o run c i [a]
-  | cons (i : Nat) (a : Att) (rest : List Att) : Faithful env o run c i a → (∃ e, attOutSpec env o a = .again e) →
-      Chain env o run c (i + 1) rest → Chain env o run c i (a :: rest)
+/-- `log` records consecutive executions `i, i+1, …`; every one but the last ended in "go on with the next `i`", and
+    the next one starts with the database exactly as the previous body left it (`a.after.committed`: the old database
+    plus what that body committed ITSELF — the retry machinery adds nothing) -/
+inductive Chain (env : Env) (o : Opts) (run : Nat → St → St × Outcome) : List Write → Nat → List Att → Prop where
+  | last (c : List Write) (i : Nat) (a : Att) : Faithful env o run c i a → Chain env o run c i [a]
+  | cons (c : List Write) (i : Nat) (a : Att) (rest : List Att) : Faithful env o run c i a → (∃ e, attOutSpec env o a = .again e) →
+      Chain env o run a.after.committed (i + 1) rest → Chain env o run c i (a :: rest)
 
 theorem again_spec {env : Env} {o : Opts} {a : Att} {e : Exc} (h : attOutSpec env o a = .again e) :
     a.exc = some e ∧ doRetry env o e = .yes := by
@@ -401,7 +419,7 @@ theorem again_not_commits {env : Env} {o : Opts} {run : Nat → St → St × Out
   | ret =>
     rw [hb] at hexc
     rw [hx] at hexc
-    cases hok : commitOK env a.start.ncommit a.writes with
+    cases hok : commitOK env a.after.ncommit a.writes with
     | false => simp
     | true => rw [(commitOK_iff _ _ _).1 hok] at hexc; cases hexc
   | raise e' =>
@@ -411,11 +429,11 @@ theorem again_not_commits {env : Env} {o : Opts} {run : Nat → St → St × Out
     simp [hd]
 
 theorem iter_facts (env : Env) (o : Opts) (run : Nat → St → St × Outcome) (i : Nat) (s : St) (hc : Clean s)
-    (hr : InnerOK (run i)) :
+    (hr : InnerBal (run i)) :
     Faithful env o run s.committed i (attempt env o run i (entered o s)).2.2 ∧
     Clean (attempt env o run i (entered o s)).1 ∧
     (attempt env o run i (entered o s)).1.committed =
-      s.committed ++ (if attCommits env o (attempt env o run i (entered o s)).2.2
+      (attempt env o run i (entered o s)).2.2.after.committed ++ (if attCommits env o (attempt env o run i (entered o s)).2.2
                       then (attempt env o run i (entered o s)).2.2.writes else []) ∧
     (attempt env o run i (entered o s)).2.1 = attOutSpec env o (attempt env o run i (entered o s)).2.2 := by
   rcases hb : run i (entered o s) with ⟨bs, bo⟩
@@ -441,12 +459,12 @@ theorem loop_unfold (env : Env) (o : Opts) (run : Nat → St → St × Outcome) 
   rw [loop, enter_clean o s hc]
   rfl
 
-theorem loop_spec (env : Env) (o : Opts) (run : Nat → St → St × Outcome) (hr : ∀ j, InnerOK (run j)) :
+theorem loop_spec (env : Env) (o : Opts) (run : Nat → St → St × Outcome) (hr : ∀ j, InnerBal (run j)) :
     ∀ (fuel i : Nat) (last : Option Exc) (s : St), Clean s →
       Chain env o run s.committed i (loop env o run (fuel + 1) i last s).log ∧
       (loop env o run (fuel + 1) i last s).log.length ≤ fuel + 1 ∧ Clean (loop env o run (fuel + 1) i last s).st ∧
       ∃ a, (loop env o run (fuel + 1) i last s).log.getLast? = some a ∧
-        (loop env o run (fuel + 1) i last s).st.committed = s.committed ++ (if attCommits env o a then a.writes else []) ∧
+        (loop env o run (fuel + 1) i last s).st.committed = a.after.committed ++ (if attCommits env o a then a.writes else []) ∧
         (loop env o run (fuel + 1) i last s).out = (match attOutSpec env o a with | .done out => out | .again e => .raise e) ∧
         (∀ e, attOutSpec env o a = .again e → (loop env o run (fuel + 1) i last s).log.length = fuel + 1) := by
   intro fuel
@@ -460,13 +478,13 @@ theorem loop_spec (env : Env) (o : Opts) (run : Nat → St → St × Outcome) (h
     simp only at hf hcl hcm hout
     cases ao with
     | done out =>
-      refine ⟨Chain.last i a hf, by simp, hcl, a, by simp, hcm, ?_, ?_⟩
+      refine ⟨Chain.last _ i a hf, by simp, hcl, a, by simp, hcm, ?_, ?_⟩
       · simp [← hout]
       · intro e he; rw [← hout] at he; cases he
     | again e =>
       have hnc := again_not_commits hf hout.symm
       simp only [loop]
-      refine ⟨Chain.last i a hf, by simp, hcl, a, by simp, hcm, ?_, ?_⟩
+      refine ⟨Chain.last _ i a hf, by simp, hcl, a, by simp, hcm, ?_, ?_⟩
       · simp [← hout]
       · intro _ _; rfl
   | succ n ih =>
@@ -478,17 +496,17 @@ theorem loop_spec (env : Env) (o : Opts) (run : Nat → St → St × Outcome) (h
     simp only at hf hcl hcm hout
     cases ao with
     | done out =>
-      refine ⟨Chain.last i a hf, by simp, hcl, a, by simp, hcm, ?_, ?_⟩
+      refine ⟨Chain.last _ i a hf, by simp, hcl, a, by simp, hcm, ?_, ?_⟩
       · simp [← hout]
       · intro e he; rw [← hout] at he; cases he
     | again e =>
       have hnc := again_not_commits hf hout.symm
-      have hs2 : s2.committed = s.committed := by rw [hcm, hnc]; simp
+      have hs2 : s2.committed = a.after.committed := by rw [hcm, hnc]; simp
       obtain ⟨ih1, ih2, ih3, a', ih4, ih5, ih6, ih7⟩ := ih (i + 1) (some e) s2 hcl
-      rw [hs2] at ih1 ih5
+      rw [hs2] at ih1
       have hne : (loop env o run (n + 1) (i + 1) (some e) s2).log ≠ [] := by
         intro h; rw [h] at ih4; cases ih4
-      refine ⟨Chain.cons i a _ hf ⟨e, hout.symm⟩ ih1, by simp; omega, ih3, a', ?_, ih5, ih6, ?_⟩
+      refine ⟨Chain.cons _ i a _ hf ⟨e, hout.symm⟩ ih1, by simp; omega, ih3, a', ?_, ih5, ih6, ?_⟩
       · simp only [List.getLast?_cons_of_ne_nil hne] ; exact ih4
       · intro e' he'; simp [ih7 e' he']
 
@@ -564,19 +582,115 @@ theorem flask_inner (env : Env) (hooked : Bool) (view : St → St × Outcome) (h
     obtain ⟨ws, hws⟩ := hp.pending
     exact ⟨by simp [hp.counter], by simp [hp.session], by simp [hp.committed], by simp [hp.ncommit], ⟨ws, by simpa using hws⟩⟩
 
-theorem exec_inner (env : Env) (p : Prog) : InnerOK (exec env p) := by
+theorem exec_inner (env : Env) (p : Prog) : p.noManual → InnerOK (exec env p) := by
   induction p with
-  | skip => intro s _ _; exact Preserves.refl s
+  | skip => intro _ s _ _; exact Preserves.refl s
   | write w =>
-    intro s _ hs
+    intro _ s _ hs
     simp only [exec, hs, if_true, addWrites]
     exact ⟨rfl, rfl, rfl, rfl, ⟨[w], rfl⟩⟩
-  | mark n => intro s _ _; exact ⟨rfl, rfl, rfl, rfl, ⟨[], by simp [exec]⟩⟩
+  | mark n => intro _ s _ _; exact ⟨rfl, rfl, rfl, rfl, ⟨[], by simp [exec]⟩⟩
   | observe =>
-    intro s _ hs
+    intro _ s _ hs
     simp only [exec, hs, if_true]
     exact ⟨rfl, rfl, rfl, rfl, ⟨[], by simp⟩⟩
-  | raise e => intro s _ _; exact Preserves.refl s
+  | commit => intro hm; exact absurd hm (by simp [Prog.noManual])
+  | rollback => intro hm; exact absurd hm (by simp [Prog.noManual])
+  | raise e => intro _ s _ _; exact Preserves.refl s
+  | seq a b iha ihb =>
+    intro hm s hc hs
+    simp only [Prog.noManual] at hm
+    have h1 := iha hm.1 s hc hs
+    simp only [exec]
+    rcases hr : exec env a s with ⟨s1, o1⟩
+    rw [hr] at h1
+    cases o1 with
+    | ret =>
+      dsimp only
+      exact h1.trans (ihb hm.2 s1 (by rw [h1.counter]; exact hc) (by rw [h1.session]; exact hs))
+    | raise e => exact h1
+  | tryCatch p c h ihp ihh =>
+    intro hm s hc hs
+    simp only [Prog.noManual] at hm
+    have h1 := ihp hm.1 s hc hs
+    simp only [exec]
+    rcases hr : exec env p s with ⟨s1, o1⟩
+    rw [hr] at h1
+    cases o1 with
+    | ret => exact h1
+    | raise e =>
+      dsimp only
+      split
+      · exact h1.trans (ihh hm.2 s1 (by rw [h1.counter]; exact hc) (by rw [h1.session]; exact hs))
+      · exact h1
+  | withSession o p ih => intro hm; exact cm_inner env o _ (ih (by simpa [Prog.noManual] using hm))
+  | call o f ih =>
+    intro hm
+    simp only [Prog.noManual] at hm
+    exact decorated_inner env o _ (ih 0 (hm 0))
+  | iter o steps => intro _; exact iterGen_inner env o steps
+  | flask hooked view ih => intro hm; exact flask_inner env hooked _ (ih (by simpa [Prog.noManual] using hm))
+
+/-! ### the same for ANY program, including bodies that call `commit()` / `rollback()` themselves: the nesting counter
+and the outermost session are untouched (so the outermost `__exit__` is still the one that decides) -/
+
+theorem cm_bal (env : Env) (o : Opts) (run : St → St × Outcome) (hr : InnerBal run) : InnerBal (cm env o run) := by
+  intro s hc hs
+  unfold cm
+  split
+  · exact Bal.refl s
+  · rcases enter_inner o s hs with ⟨e, he⟩ | he
+    · rw [he]; exact Bal.refl s
+    · rw [he]
+      dsimp only
+      have hp := hr { s with counter := s.counter + 1 } (by simp; omega) (by simpa using hs)
+      rw [exit_inner env o _ _ (by rw [hp.counter]; simp; omega)]
+      exact ⟨by simp [hp.counter], by simp [hp.session]⟩
+
+theorem decorated_bal (env : Env) (o : Opts) (run : Nat → St → St × Outcome) (hr : InnerBal (run 0)) :
+    InnerBal (fun s => ((decorated env o run s).st, (decorated env o run s).out)) := by
+  intro s hc hs
+  have hne : s.counter ≠ 0 := by omega
+  simp only [decorated, hne, ne_eq, not_false_eq_true, if_true]
+  split
+  · exact Bal.refl s
+  · exact hr s hc hs
+
+theorem flask_bal (env : Env) (hooked : Bool) (view : St → St × Outcome) (hr : InnerBal view) :
+    InnerBal (flaskRequest env hooked view) := by
+  intro s hc hs
+  unfold flaskRequest
+  cases hooked with
+  | false =>
+    simp only [Bool.false_eq_true, if_false, flaskExit_eq]
+    exact hr s hc hs
+  | true =>
+    have he : enter (defaultOpts env) s = .ok { s with counter := s.counter + 1 } := by
+      rw [enter_eq]
+      cases hss : s.session with
+      | none => rw [hss] at hs; cases hs
+      | some cur => simp [defaultOpts]
+    simp only [if_true, flaskEnter, ne_eq]
+    have h0 : (defaultOpts env).retry = 0 := rfl
+    simp only [h0, not_true_eq_false, if_false, he, flaskExit_eq]
+    have hp := hr { s with counter := s.counter + 1 } (by simp; omega) (by simpa using hs)
+    rw [exit_inner env _ _ _ (by rw [hp.counter]; simp; omega)]
+    exact ⟨by simp [hp.counter], by simp [hp.session]⟩
+
+theorem exec_bal (env : Env) (p : Prog) : InnerBal (exec env p) := by
+  induction p with
+  | skip => intro s _ _; exact Bal.refl s
+  | write w => intro s _ hs; simp only [exec, hs, if_true, addWrites]; exact ⟨rfl, rfl⟩
+  | mark n => intro s _ _; exact ⟨rfl, rfl⟩
+  | observe => intro s _ hs; simp only [exec, hs, if_true]; exact ⟨rfl, rfl⟩
+  | commit =>
+    intro s _ _
+    have h := commit_spec env s
+    simp only [exec]
+    rw [h.1]
+    exact ⟨rfl, rfl⟩
+  | rollback => intro s _ _; exact ⟨rfl, rfl⟩
+  | raise e => intro s _ _; exact Bal.refl s
   | seq a b iha ihb =>
     intro s hc hs
     have h1 := iha s hc hs
@@ -601,10 +715,10 @@ theorem exec_inner (env : Env) (p : Prog) : InnerOK (exec env p) := by
       split
       · exact h1.trans (ihh s1 (by rw [h1.counter]; exact hc) (by rw [h1.session]; exact hs))
       · exact h1
-  | withSession o p ih => exact cm_inner env o _ ih
-  | call o f ih => exact decorated_inner env o _ (ih 0)
-  | iter o steps => exact iterGen_inner env o steps
-  | flask hooked view ih => exact flask_inner env hooked _ ih
+  | withSession o p ih => exact cm_bal env o _ ih
+  | call o f ih => exact decorated_bal env o _ (ih 0)
+  | iter o steps => exact (iterGen_inner env o steps).bal
+  | flask hooked view ih => exact flask_bal env hooked _ ih
 
 /-! ### generator functions -/
 
@@ -703,6 +817,13 @@ theorem exec_clean (env : Env) (p : Prog) : ∀ s, Clean s → Clean (exec env p
   | write w => intro s hc; simp [exec, hc.2.1]; exact hc
   | mark n => intro s hc; exact hc
   | observe => intro s hc; simp [exec, hc.2.1]; exact hc
+  | commit =>
+    intro s hc
+    have h := commit_spec env s
+    simp only [exec]
+    rw [h.1]
+    exact ⟨hc.1, hc.2.1, rfl⟩
+  | rollback => intro s hc; exact ⟨hc.1, hc.2.1, rfl⟩
   | raise e => intro s hc; exact hc
   | seq a b iha ihb =>
     intro s hc
@@ -730,49 +851,52 @@ theorem exec_clean (env : Env) (p : Prog) : ∀ s, Clean s → Clean (exec env p
     intro s hc
     simp only [exec]
     by_cases h0 : o.retry = 0
-    · exact (cm_top env o _ s hc (exec_inner env p) h0).1
+    · exact (cm_top env o _ s hc (exec_bal env p) h0).1
     · simp [cm, h0]; exact hc
   | call o f _ =>
     intro s hc
     simp only [exec, decorated_top env o _ s hc]
-    exact (loop_spec env o _ (fun j => exec_inner env (f j)) o.retry 0 none s hc).2.2.1
+    exact (loop_spec env o _ (fun j => exec_bal env (f j)) o.retry 0 none s hc).2.2.1
   | iter o steps => intro s hc; exact (iterGen_clean env o steps s hc).1
   | flask hooked view ih =>
     intro s hc
     cases hooked with
     | true =>
       simp only [exec, flask_eq_cm env _ s hc]
-      exact (cm_top env _ _ s hc (exec_inner env view) rfl).1
+      exact (cm_top env _ _ s hc (exec_bal env view) rfl).1
     | false =>
       simp only [exec, flaskRequest, Bool.false_eq_true, if_false, flaskExit]
       exact ih s hc
 
 /-- what `Chain` says about each recorded execution -/
-theorem chain_all {env : Env} {o : Opts} {run : Nat → St → St × Outcome} {c : List Write} :
-    ∀ {i : Nat} {log : List Att}, Chain env o run c i log →
-      (∀ a ∈ log, Entered o a.start ∧ a.start.pending = [] ∧ a.start.committed = c) ∧
+theorem chain_all {env : Env} {o : Opts} {run : Nat → St → St × Outcome} :
+    ∀ {c : List Write} {i : Nat} {log : List Att}, Chain env o run c i log →
+      (∀ a ∈ log, Entered o a.start ∧ a.start.pending = []) ∧
       (∀ a ∈ log.dropLast, ∃ e, a.exc = some e ∧ doRetry env o e = .yes ∧ attCommits env o a = false) ∧
-      (∀ j (h : j < log.length), Faithful env o run c (i + j) log[j]) := by
-  intro i log hch
+      (∀ j (h : j < log.length), ∃ c', Faithful env o run c' (i + j) log[j]) ∧
+      (∃ a0, log.head? = some a0 ∧ a0.start.committed = c) ∧
+      (∀ j (h : j + 1 < log.length), log[j + 1].start.committed = log[j].after.committed) := by
+  intro c i log hch
   induction hch with
-  | last i a hf =>
-    refine ⟨?_, ?_, ?_⟩
+  | last c i a hf =>
+    refine ⟨?_, ?_, ?_, ⟨a, rfl, hf.committed⟩, ?_⟩
     · intro x hx
       simp only [List.mem_singleton] at hx
       subst hx
-      exact ⟨hf.entered, hf.pending, hf.committed⟩
+      exact ⟨hf.entered, hf.pending⟩
     · intro x hx; simp at hx
     · intro j h
       have : j = 0 := by simpa using h
       subst this
-      simpa using hf
-  | cons i a rest hf hag _ ih =>
-    obtain ⟨ih1, ih2, ih3⟩ := ih
+      exact ⟨c, by simpa using hf⟩
+    · intro j h; simp at h
+  | cons c i a rest hf hag _ ih =>
+    obtain ⟨ih1, ih2, ih3, ⟨a0, ih4, ih4'⟩, ih5⟩ := ih
     obtain ⟨e, he⟩ := hag
-    refine ⟨?_, ?_, ?_⟩
+    refine ⟨?_, ?_, ?_, ⟨a, rfl, hf.committed⟩, ?_⟩
     · intro x hx
       rcases List.mem_cons.1 hx with rfl | hx
-      · exact ⟨hf.entered, hf.pending, hf.committed⟩
+      · exact ⟨hf.entered, hf.pending⟩
       · exact ih1 x hx
     · intro x hx
       cases rest with
@@ -784,10 +908,45 @@ theorem chain_all {env : Env} {o : Opts} {run : Nat → St → St × Outcome} {c
         · exact ih2 x hx
     · intro j h
       cases j with
-      | zero => simpa using hf
+      | zero => exact ⟨c, by simpa using hf⟩
       | succ k =>
         have hk : k < rest.length := by simpa using h
-        have := ih3 k hk
-        simpa [Nat.add_assoc, Nat.add_comm 1 k] using this
+        obtain ⟨c', hc'⟩ := ih3 k hk
+        exact ⟨c', by simpa [Nat.add_assoc, Nat.add_comm 1 k] using hc'⟩
+    · intro j h
+      cases j with
+      | zero =>
+        cases rest with
+        | nil => simp at h
+        | cons y ys =>
+          simp only [List.head?_cons, Option.some.injEq] at ih4
+          subst ih4
+          simpa using ih4'
+      | succ k =>
+        have hk : k + 1 < rest.length := by simpa using h
+        simpa using ih5 k hk
+
+/-- when no body calls `commit()` / `rollback()` itself, every recorded execution starts AND ends with the database as
+    it was before the call, and makes no real commit -/
+theorem chain_noManual {env : Env} {o : Opts} {run : Nat → St → St × Outcome} (hr : ∀ j, InnerOK (run j)) :
+    ∀ {c : List Write} {i : Nat} {log : List Att}, Chain env o run c i log →
+      ∀ a ∈ log, a.start.committed = c ∧ a.after.committed = c ∧ a.after.ncommit = a.start.ncommit := by
+  intro c i log hch
+  induction hch with
+  | last c i a hf =>
+    intro x hx
+    simp only [List.mem_singleton] at hx
+    subst hx
+    have hp := hr i x.start (by rw [hf.entered.1]; decide) (by rw [hf.entered.2]; rfl)
+    rw [← hf.after] at hp
+    exact ⟨hf.committed, hp.committed.trans hf.committed, hp.ncommit⟩
+  | cons c i a rest hf _ _ ih =>
+    have hp := hr i a.start (by rw [hf.entered.1]; decide) (by rw [hf.entered.2]; rfl)
+    rw [← hf.after] at hp
+    have hac : a.after.committed = c := hp.committed.trans hf.committed
+    intro x hx
+    rcases List.mem_cons.1 hx with rfl | hx
+    · exact ⟨hf.committed, hac, hp.ncommit⟩
+    · rw [hac] at ih; exact ih x hx
 
 end PonyVerif.Model.DbSession
